@@ -316,6 +316,7 @@ func checkC18(c *Ctx) {
 	c.ruleLoggerContext("C18-R6")
 	c.ruleGuardedMaps("C18-R7")
 	c.ruleOptionalCallbacksGuarded("C18-R8")
+	c.ruleWorkerServesEveryRequest("", "C18-R9")
 	_ = token.ADD
 	_ = types.Typ
 }
